@@ -147,9 +147,10 @@ Section Protocols.
     if Nat.ltb (length shares) 2 then Val None
     else
       r <- core_combine_public_key_shares O shares ;;
-      let ua := match r with Ok p => p | Err _ => pid end in
-      valid <- sc_valid u v w dst ;;
-      sc_decrypt v ua valid.
+      match r with
+      | Err _ => Val None          (* shares that do not combine open nothing *)
+      | Ok ua => valid <- sc_valid u v w dst ;; sc_decrypt v ua valid
+      end.
 
   Definition sc_create_decryption_share (sh : share) (u : pkpt) : M (res share) :=
     match share_as_field_element O sh with
